@@ -1162,7 +1162,34 @@ func FeasiblePaths(f *ssa.Function, limit int) ([][]*ssa.BasicBlock, bool) {
 		}
 		return false, false
 	}
-	decided := map[ssa.Value]bool{}
+	decided := map[interface{}]bool{}
+	// condKey: the proposition a branch decides - the SSA value itself, or for a comparison its canonical form (two
+	// comparison instructions over the same operands are the same proposition: `r != nil` tested twice, or once as
+	// `r == nil`), with the truth value that corresponds to the true edge
+	type cmpKey struct {
+		op   token.Token
+		x, y ssa.Value
+	}
+	condKey := func(nc Cond) (interface{}, bool) {
+		if m, isCmp := AsCmp(Cond{V: nc.V, True: true}); isCmp {
+			truth := nc.True
+			op := m.Op
+			switch op {
+			case token.NEQ, token.GEQ, token.GTR:
+				op, truth = negOp(op), !truth
+			}
+			x, y := Resolve(m.X), Resolve(m.Y)
+			if _, xk := x.(*ssa.Const); !xk {
+				if _, yk := y.(*ssa.Const); !yk {
+					return cmpKey{op, x, y}, truth
+				}
+			}
+			if k, isK := y.(*ssa.Const); isK && k.Value == nil {
+				return cmpKey{op, x, nil}, truth
+			}
+		}
+		return nc.V, nc.True
+	}
 	var dfs func(b *ssa.BasicBlock)
 	dfs = func(b *ssa.BasicBlock) {
 		if !ok || on[b] {
@@ -1186,18 +1213,20 @@ func FeasiblePaths(f *ssa.Function, limit int) ([][]*ssa.BasicBlock, bool) {
 				} else {
 					dfs(b.Succs[1])
 				}
-			} else if prev, seen := decided[nc.V]; seen {
-				if prev == nc.True {
-					dfs(b.Succs[0])
+			} else if key, truth := condKey(nc); true {
+				if prev, seen := decided[key]; seen {
+					if prev == truth {
+						dfs(b.Succs[0])
+					} else {
+						dfs(b.Succs[1])
+					}
 				} else {
+					decided[key] = truth
+					dfs(b.Succs[0])
+					decided[key] = !truth
 					dfs(b.Succs[1])
+					delete(decided, key)
 				}
-			} else {
-				decided[nc.V] = nc.True
-				dfs(b.Succs[0])
-				decided[nc.V] = !nc.True
-				dfs(b.Succs[1])
-				delete(decided, nc.V)
 			}
 		default:
 			for _, s := range b.Succs {
